@@ -72,7 +72,7 @@ CHECKS["C03"] = {
 }
 CHECKS["C04"] = {
     "subs": [{"pkg": "sim", "test": "TestC04", "quick": 6000, "thorough": 150000, "shards_quick": 8, "shards_thorough": 16, "timeout_thorough": 7200},
-             {"pkg": "sim", "test": "TestC04Window", "quick": 400, "thorough": 20000, "shards_quick": 4, "shards_thorough": 16, "timeout_quick": 600, "timeout_thorough": 3600}],
+             {"pkg": "sim", "test": "TestC04Window", "quick": 800, "thorough": 20000, "shards_quick": 4, "shards_thorough": 16, "timeout_quick": 600, "timeout_thorough": 3600}],
     "engine": "SIM",
     "level_text": "Simulated histories composing the real gossip state, syncer, cluster state and upstream manager; whenever an observer has caught up with an owner its routing table must mirror the owner's advertisement exactly, and every lookup must return an active, advertising remote node. Exploration only.",
     "technique": "stateful PBT (rapid), oracle = owner's own cluster state at equal versions; schedule-owning overlap of two operations with a sequential-order (linearizability) oracle",
